@@ -10,13 +10,23 @@ Tie (this module):
   configs   = no instrumentation, each ProfileMode, the no-op statement hook (harness bin `eval`), the real debug adapter
               (harness bin `dap`: prepare_dap_adapter + DapAdapterEvalHook on an evaluator thread, client/controller
               threads, every interaction under a timeout) with no breakpoints / breakpoints on marker lines continuing /
-              stepping Into / Over / Out / a random command script / evaluate() at every stop.
+              stepping Into / Over / Out / a random command script / evaluate() at every stop / constant conditions;
+  scripts   = family S: nested-call programs x breakpoint subsets (any statement line) x ALL command sequences over
+              {Continue, Into, Over, Out} up to a depth (tree pruned with the oracle) + random long scripts;
+  shadowing = family C: programs whose parameters/locals are named like module globals and whose loaded frozen functions
+              have globals colliding with the running module's, under conditional breakpoints (always false / always true /
+              depending on locals / failing) and evaluate requests at stops (+ mixed command scripts).
   checked   = (1) transcript, result, error identical to the uninstrumented run in every configuration; profile generation
               succeeds; no hang; (2) the real sequence of before_stmt events is identical in every debugger configuration
               and, for MarkStar programs, equals the Coq model's trace (and transcript/outcome equal the model's);
               (3) the adapter's stops equal the Coq decision function (Debug/Cases.v, vm_compute) applied to the REAL event
               trace; the number of stops per breakpoint line equals the number of executions counted by the program itself;
-              the variables shown at a stop equal the value the program emits at that statement.
+              the variables shown at a stop equal the value the program emits at that statement;
+              (4) every mixed-command session stops exactly where the decision function (Python oracle AND Coq `stops B (script cs)`,
+              a stop of any cause consumes the pending step) says on the real trace;
+              (5) debugger-side expression evaluation does not interfere: transcript, result/error and FINAL MODULE VALUES equal
+              the completely uninstrumented run; always-false conditions give zero stops; conditions on locals stop exactly at
+              the executions where they hold; evaluate(name)/variables() show the local's value, not the shadowed global's.
 The Python functions `py_stops`/`py_exec` below are the specification oracle used for triage."""
 import json
 import os
@@ -35,7 +45,10 @@ TRUSTED = ["cases.v route: the model (run_case, dbg_cases of coq/Debug/Cases.v) 
            "tools/gen/progs.py and the MarkStar generator/renderers in tools/props/C18.py",
            "breakpoints are identified with lines (generated programs hold one statement per line)"]
 ASSUMPTIONS = ["observers are modelled as functions of (own state, event): a hook that fails (returns Err) or mutates program state "
-               "through the Evaluator it is handed is outside the model (the adapter's evaluate() is exercised by the tie only)",
+               "through the Evaluator it is handed is outside the model; the adapter's expression evaluation (breakpoint conditions, "
+               "evaluate requests: Evaluator::eval_statements) is tied differentially only: pure expressions, programs with shadowing "
+               "locals/parameters and colliding frozen-module globals, comparison of transcript, outcome and final module values with the "
+               "uninstrumented run",
                "agreement of the real compiler/VM instrumentation with the model is established by differential testing",
                "timing / allocation effects of profilers are not observable by programs and are not checked"]
 
@@ -45,6 +58,7 @@ RETAINED = {"heap-summary-retained", "heap-flame-retained", "heap-retained"}   #
 KNOWN_TWICE = "before-stmt-twice:module-level-gc-point"
 KNOWN_PAREN = "breakpoint-missed:paren-leading-expression-statement"
 FUEL = 400
+DBG_CHUNK = 150        # configurations per `Eval vm_compute in (dbg_cases ..)` literal
 MARK0 = 900000
 
 
@@ -357,16 +371,24 @@ def corpus_programs():
 # specification oracle (Python): the adapter's decision function
 
 def py_stops(bps, script, events):
-    """events: [(line, depth)]; script: list of 'continue'|'into'|'over'|'out' (last repeats) -> list of (line, depth)."""
+    """events: [(line, depth)]; script: list of 'continue'|'into'|'over'|'out' (last repeats) -> list of (line, depth).
+    bps: collection of lines, or a predicate (line, k) -> bool where k counts the earlier events of that line (conditional
+    breakpoints: the condition is evaluated at every start event of the line).
+    Semantics (DapAdapterEvalHookImpl::call): a stop of ANY cause consumes the pending step request; the command given at the
+    stop installs the new one (continue: none)."""
     step = None
     n = 0
     out = []
-    B = set(bps)
+    pred = bps if callable(bps) else None
+    B = set() if pred else set(bps)
+    occ = {}
     for (l, d) in events:
-        stop = l in B
+        k = occ.get(l, 0)
+        occ[l] = k + 1
+        stop = pred(l, k) if pred else l in B
         if step is not None:
-            k, saved = step
-            stop = stop or k == "into" or (k == "over" and d <= saved) or (k == "out" and d < saved)
+            kd, saved = step
+            stop = stop or kd == "into" or (kd == "over" and d <= saved) or (kd == "out" and d < saved)
         if stop:
             out.append((l, d))
             cmd = script[min(n, len(script) - 1)] if script else "continue"
@@ -464,6 +486,11 @@ def dap_configs(rng, prog):
         {"name": "step-over", "bps": first, "policy": ["over"]},
         {"name": "step-out", "bps": marks, "policy": ["out"]},
         {"name": "script", "bps": sub2, "policy": script},
+        # conditional breakpoints with constant conditions: never stop / stop like unconditional ones; the run is unchanged
+        {"name": "cond-false-all", "bps": marks, "policy": ["continue"], "conds": {str(l): rng.choice(["False", "1 == 2", "not True"]) for l in marks},
+         "effective": []},
+        {"name": "cond-true-subset", "bps": sub, "policy": ["continue"], "conds": {str(l): rng.choice(["True", "1 == 1"]) for l in sub},
+         "effective": sub},
     ]
 
 
@@ -532,11 +559,15 @@ def run_model(ctx, programs, dbg_jobs):
     nshard = sv.NPROC
     head = ("From Coq Require Import ZArith NArith List.\nFrom SV Require Import Debug.Model Debug.Cases.\nImport ListNotations.\n")
     items = [("P", "Eval vm_compute in (run_case %d %s)." % (FUEL, p["coq"])) for p in programs]
-    for evs, cfgs in dbg_jobs:
+    chunks = []     # (job index, number of configurations) per emitted D item
+    for j, (evs, cfgs) in enumerate(dbg_jobs):
         tr = "[%s]" % "; ".join("(%d, %d)" % e for e in evs)
-        cf = "[%s]" % "; ".join("([%s], [%s])" % ("; ".join(str(b) for b in bps), "; ".join(COQ_CMD[c] for c in (sc or ["continue"])))
-                               for bps, sc in cfgs)
-        items.append(("D", "Eval vm_compute in (dbg_cases %s %s)." % (cf, tr)))
+        for c0 in range(0, max(1, len(cfgs)), DBG_CHUNK):
+            part = cfgs[c0:c0 + DBG_CHUNK]
+            cf = "[%s]" % "; ".join("([%s], [%s])" % ("; ".join(str(b) for b in bps), "; ".join(COQ_CMD[c] for c in (sc or ["continue"])))
+                                   for bps, sc in part)
+            items.append(("D", "Eval vm_compute in (dbg_cases %s %s)." % (cf, tr)))
+            chunks.append((j, len(part)))
     files = []
     for s in range(nshard):
         part = items[s::nshard]
@@ -557,7 +588,13 @@ def run_model(ctx, programs, dbg_jobs):
             log += out[-400:]
         for j, v in enumerate(vals[:n]):
             res[s + j * nshard] = v
-    return res[:len(programs)], res[len(programs):], log
+    dres = [[] for _ in dbg_jobs]
+    for (j, n), v in zip(chunks, res[len(programs):]):
+        if v is None or dres[j] is None or len(v) != n:
+            dres[j] = None
+        else:
+            dres[j] += v
+    return res[:len(programs)], dres, log
 
 
 def model_result(v):
@@ -571,8 +608,11 @@ def model_result(v):
 # ------------------------------------------------------------------------------------------------
 # the comparison
 
-def check_programs(ctx, programs, want_model=True):
+def check_programs(ctx, programs, want_model=True, extra_dbg=None):
+    """extra_dbg: decision-function jobs of the other families, evaluated in the same coqc batch:
+    list of (events, [(bps, script)], callback(list of model stop lists or None, log))."""
     failures = []
+    extra_dbg = extra_dbg or []
     st = {"programs": len(programs), "eval_runs": 0, "dap_runs": 0, "stops": 0, "events": 0, "vars_compared": 0, "vars_not_shown": 0,
           "decision_cases": 0, "model_traces": 0, "twice_programs": 0, "failing_programs": 0, "evals": 0, "top_frame_name_none": 0,
           "marker_executions": 0, "configs": {}}
@@ -636,6 +676,9 @@ def check_programs(ctx, programs, want_model=True):
             bps = [evs[0][0]] if evs else []
         job = {"src": programs[i]["src"], "bps": bps, "policy": c["policy"], "evals": c.get("evals", []),
                "vars": c["policy"] == ["continue"] or c["name"] == "script"}
+        if "conds" in c:
+            job["conds"] = c["conds"]
+            bps = c["effective"]       # constant conditions: the breakpoints that can stop
         jobs.append(job)
         meta.append((i, c["name"], bps, c["policy"]))
     res, rc, log = run_dap(ctx, jobs, "cfg")
@@ -670,7 +713,7 @@ def check_programs(ctx, programs, want_model=True):
         for name, bps, pol, job, r in by_prog.get(i, []):
             st["dap_runs"] += 1
             st["configs"][name] = st["configs"].get(name, 0) + 1
-            rep = {"src": p["src"], "config": name, "bps": bps, "policy": pol, "evals": job["evals"]}
+            rep = {"src": p["src"], "config": name, "bps": job["bps"], "policy": pol, "evals": job["evals"], "conds": job.get("conds", {})}
             if r is None or "panic" in r or r.get("lost"):
                 fail("impl-crash:dap-" + name, "%s: debugger session %s crashed: %s" % (p["id"], name, str(r)[:300]), dict(rep, impl=r))
                 continue
@@ -685,7 +728,7 @@ def check_programs(ctx, programs, want_model=True):
             if r.get("events") != r0.get("events"):
                 fail("trace-differs-across-configs:dap-" + name, "%s: the before_stmt event sequence under %s differs from the one without the adapter "
                      "(%d vs %d events)" % (p["id"], name, len(r.get("events", [])), len(r0.get("events", []))), rep)
-            if bps and not all(r.get("verified", [])):
+            if job["bps"] and not all(r.get("verified", [])):
                 fail("breakpoint-unverified", "%s: a breakpoint on a statement line was not resolved: %s %s" % (p["id"], bps, r.get("verified")), rep)
             stops = [s for s in r.get("stops", []) if "i" in s]
             resume_err = [s for s in r.get("stops", []) if "resume_error" in s]
@@ -731,8 +774,11 @@ def check_programs(ctx, programs, want_model=True):
     # ---- the Coq model: traces of MarkStar programs, decision function on the real traces
     mprogs = [(i, p) for i, p in enumerate(programs) if p.get("coq") and base[i] is not None and rec[i] is not None
               and not rec[i].get("hang") and "panic" not in rec[i]] if want_model else []
-    mres, dres, mlog = run_model(ctx, [p for _, p in mprogs], dbg_jobs)
-    ctx.log("Coq model evaluated (%d programs, %d decision jobs)" % (len(mprogs), len(dbg_jobs)))
+    mres, dres, mlog = run_model(ctx, [p for _, p in mprogs], dbg_jobs + [(e, c) for e, c, _ in extra_dbg])
+    ctx.log("Coq model evaluated (%d programs, %d decision jobs, %d configurations)"
+            % (len(mprogs), len(dbg_jobs) + len(extra_dbg), sum(len(c) for _, c in dbg_jobs) + sum(len(c) for _, c, _ in extra_dbg)))
+    for (_, _, cb), v in zip(extra_dbg, dres[len(dbg_jobs):]):
+        cb(v, mlog)
     for (i, p), v in zip(mprogs, mres):
         if v is None:
             fail("model-run-failed", "the Coq model could not be evaluated for %s: %s" % (p["id"], mlog[-300:]), {"src": p["src"], "coq": p["coq"]})
@@ -986,6 +1032,653 @@ def compare_var(p, s, var, val, rep, fail, st, strict):
 
 
 # ------------------------------------------------------------------------------------------------
+# family S: command SCRIPTS - sessions that mix Continue / Into / Over / Out
+#
+# quantifier: "breakpoints on any subset of lines, continuing or single-stepping" - every stop may be answered by a
+# different command.  For a program with real event trace E and a breakpoint set B the sessions form a tree: a node is a
+# command prefix p (followed by Continue for ever); its children p+[c] exist when the session of p stops more than len(p)
+# times.  The tree is enumerated exhaustively up to a depth (pruned with the specification oracle: commands after the last
+# stop cannot matter), plus random long scripts with any tail.  Every session is compared with py_stops AND with the Coq
+# decision function (stops B (script cs) E, vm_compute) on the real trace.
+
+CMDS = ["continue", "into", "over", "out"]
+
+
+def script_corpus():
+    d = os.path.join(sv.ROOT, "corpus", "C18", "scripts")
+    out = []
+    if os.path.isdir(d):
+        for f in sorted(os.listdir(d)):
+            if f.endswith(".star"):
+                out.append({"id": "scripts:" + f, "src": open(os.path.join(d, f)).read(), "fixed": True})
+    return out
+
+
+def script_programs(ctx, n_gen):
+    """fixed nested-call programs + generated MarkStar programs that contain calls (small traces)."""
+    rng = ctx.rng
+    out = script_corpus()
+    tries = 0
+    while len([p for p in out if not p.get("fixed")]) < n_gen and tries < 40 * n_gen + 40:
+        tries += 1
+        p = gen_markstar(rng.getrandbits(40), size=rng.choice([8, 10, 12]), p_fail=0.2)
+        depth = max([d for _, d in p["ref"][2]] or [0])
+        if depth >= 1 and 6 <= len(p["ref"][2]) <= 45:
+            out.append({"id": "s" + p["id"], "src": p["src"], "fixed": False})
+    return out
+
+
+def script_tree(events, bps, depth):
+    """All command prefixes (each followed by Continue for ever) of the sessions with breakpoints `bps`, up to `depth`
+    commands, pruned by the oracle: a prefix is extended only while the session stops more often than it has commands
+    (and a trailing Continue is not written twice).  -> list of policies."""
+    out = []
+    frontier = [[]]
+    while frontier:
+        nxt = []
+        for p in frontier:
+            alive = len(py_stops(bps, p + ["continue"], events)) > len(p)
+            if p and p[-1] == "continue" and not alive:
+                continue       # the same session as the shorter prefix
+            out.append(p + ["continue"])
+            if len(p) < depth and alive:
+                for c in CMDS:
+                    nxt.append(p + [c])
+        frontier = nxt
+    return out
+
+
+def script_sessions(ctx, prog, events, budget, depth_small, depth_big, stats=None):
+    """-> list of (bps, policy) for one program: every breakpoint subset of size 1 and 2 (pairs sampled when there are many),
+    random larger subsets and the full set, each with the complete command tree up to depth_small - 1; then, while the
+    budget lasts, subsets in random order are deepened to depth_small and a few to depth_big; + random long scripts."""
+    rng = ctx.rng
+    stats = stats if stats is not None else {}
+    src_lines = prog["src"].split("\n")
+    lines = sorted({l for l, _ in events if not src_lines[l - 1].startswith("def ")})
+    if not lines:
+        return []
+    subsets = [[l] for l in lines]
+    pairs = [[a, b] for i, a in enumerate(lines) for b in lines[i + 1:]]
+    rng.shuffle(pairs)
+    subsets += pairs[:ctx.n(30, 600)]
+    for _ in range(ctx.n(6, 40)):
+        k = rng.randint(3, min(6, len(lines))) if len(lines) >= 3 else len(lines)
+        subsets.append(sorted(rng.sample(lines, k)))
+    subsets.append(list(lines))
+    subsets = [list(t) for t in dict.fromkeys(tuple(b) for b in subsets)]
+    trees = [script_tree(events, b, depth_small - 1) for b in subsets]
+    stats["subsets_complete_to_depth_%d" % (depth_small - 1)] = stats.get("subsets_complete_to_depth_%d" % (depth_small - 1), 0) + len(subsets)
+    used = sum(len(t) for t in trees)
+    order = list(range(len(subsets)))
+    rng.shuffle(order)
+    for rank, i in enumerate(order):
+        if used >= budget:
+            break
+        d = depth_big if rank < ctx.n(3, 30) else depth_small
+        t = script_tree(events, subsets[i], d)
+        used += len(t) - len(trees[i])
+        trees[i] = t
+        stats["subsets_complete_to_depth_%d" % d] = stats.get("subsets_complete_to_depth_%d" % d, 0) + 1
+    sessions = [(b, pol) for b, t in zip(subsets, trees) for pol in t]
+    # random long scripts with any tail (the last command repeats)
+    for _ in range(ctx.n(40, 400)):
+        b = sorted(rng.sample(lines, rng.randint(1, min(5, len(lines)))))
+        sc = [rng.choice(CMDS) for _ in range(rng.randint(4, 12))]
+        sessions.append((b, sc))
+    return sessions
+
+
+def classify_script_diff(got, want, pol):
+    k = 0
+    while k < min(len(got), len(want)) and got[k] == want[k]:
+        k += 1
+    after = pol[min(k - 1, len(pol) - 1)] if k > 0 else "start"
+    kind = "extra-stop" if k >= len(want) else ("missing-stop" if k >= len(got) else "other-stop")
+    return k, "stops-differ-from-decision-function:script/%s-after-%s" % (kind, after)
+
+
+def check_scripts(ctx, progs, budget_per_prog, depth_small, depth_big, sessions_of=None):
+    """-> failures, stats, extra_dbg jobs.  sessions_of: {prog id: [(bps, policy)]} for replays."""
+    failures = []
+    st = {"script_programs": len(progs), "script_sessions": 0, "script_stops": 0, "script_coq_cases": 0, "script_lengths": {}, "script_trees": {},
+          "script_impl_equals_coq_model": 0,
+          "script_sessions_with_breakpoint_hit_during_pending_over_or_out": 0}
+
+    def fail(key, what, replay):
+        failures.append({"key": key, "what": what, "replay": dict(replay, family="script")})
+
+    rec, rc, log = run_dap(ctx, [{"src": p["src"], "adapter": False, "bps": [], "policy": []} for p in progs], "srec")
+    jobs, meta = [], []
+    for p, r0 in zip(progs, rec):
+        if r0 is None or "panic" in r0 or r0.get("hang") or "parse_error" in r0:
+            fail("impl-crash:record-only", "%s: run with only the recording hook: %s" % (p["id"], str(r0)[:200]), {"src": p["src"], "impl": r0})
+            continue
+        evs = real_events(r0)
+        sess = sessions_of[p["id"]] if sessions_of else script_sessions(ctx, p, evs, budget_per_prog, depth_small, depth_big, st["script_trees"])
+        for b, pol in sess:
+            jobs.append({"src": p["src"], "bps": b, "policy": pol, "vars": False, "max_stops": 400})
+            meta.append((p, r0, evs, b, pol))
+    res, rc, log = run_dap(ctx, jobs, "scr")
+    if rc != 0:
+        fail("harness-crash:dap", "dap harness exited with %s: %s" % (rc, log[-300:]), {"rc": rc})
+    per_prog = {}
+    for (p, r0, evs, b, pol), r in zip(meta, res):
+        st["script_sessions"] += 1
+        st["script_lengths"][len(pol)] = st["script_lengths"].get(len(pol), 0) + 1
+        rep = {"src": p["src"], "bps": b, "policy": pol, "program": p["id"]}
+        if r is None or "panic" in r or r.get("lost"):
+            fail("impl-crash:dap-script", "%s: debugger session %s/%s crashed: %s" % (p["id"], b, pol, str(r)[:300]), dict(rep, impl=r))
+            continue
+        if r.get("hang"):
+            fail("hang:dap-script", "%s: debugger session (breakpoints %s, commands %s) made no progress (deadlock)" % (p["id"], b, pol), rep)
+            continue
+        got_out = (r.get("tr"), norm_out(r.get("out")))
+        base_out = (r0.get("tr"), norm_out(r0.get("out")))
+        if got_out != base_out:
+            fail("outcome-differs:dap-script", "%s: under the debugger (breakpoints %s, commands %s) the program behaves differently: %s vs %s"
+                 % (p["id"], b, pol, str(got_out)[:300], str(base_out)[:300]), dict(rep, instrumented=got_out, uninstrumented=base_out))
+        if r.get("events") != r0.get("events"):
+            fail("trace-differs-across-configs:dap-script", "%s: the before_stmt event sequence under the script session differs from the one "
+                 "without the adapter" % p["id"], rep)
+        stops = [s_ for s_ in r.get("stops", []) if "i" in s_]
+        st["script_stops"] += len(stops)
+        got = [(s_.get("line"), (len(s_["frames"]) - 1) if "frames" in s_ else None) for s_ in stops]
+        want = py_stops(b, pol, evs)
+        if r.get("capped"):
+            want = want[:len(got)]
+        # the scenario class of interest: a breakpoint stops the program while an Over/Out request is outstanding
+        for k in range(1, len(want)):
+            if pol[min(k - 1, len(pol) - 1)] in ("over", "out") and want[k][0] in b and want[k][1] > want[k - 1][1]:
+                st["script_sessions_with_breakpoint_hit_during_pending_over_or_out"] += 1
+                break
+        if [g[0] for g in got] != [w[0] for w in want] or any(g[1] is not None and g[1] != w[1] for g, w in zip(got, want)):
+            k, key = classify_script_diff([g[0] for g in got], [w[0] for w in want], pol)
+            fail(key, "%s: breakpoints %s, commands %s (last repeats): the adapter's stops differ from the decision function applied to the "
+                 "real event trace: first %d equal, then impl %s vs expected %s (a stop of any cause consumes the pending step; "
+                 "Continue installs none)" % (p["id"], b, pol, k, got[k:k + 3], want[k:k + 3]),
+                 dict(rep, impl_stops=got[:60], spec_stops=want[:60], events=evs[:200]))
+        per_prog.setdefault(p["id"], (p, evs, []))[2].append((b, pol, got, want))
+    extra = []
+    for pid, (p, evs, items) in per_prog.items():
+        if len(evs) > 400:
+            continue
+
+        def cb(v, mlog, p=p, evs=evs, items=items):
+            if v is None or len(v) != len(items):
+                fail("model-run-failed", "the Coq decision function could not be evaluated for %s: %s" % (p["id"], mlog[-300:]), {"src": p["src"]})
+                return
+            for (b, pol, got, want), mv in zip(items, v):
+                st["script_coq_cases"] += 1
+                ms = [tuple(e) for e in mv]
+                full = py_stops(b, pol, evs)
+                if ms != full:
+                    fail("model-vs-spec:decision-function", "%s: Coq run_dbg and the Python oracle disagree on (%s, %s)" % (p["id"], b, pol),
+                         {"src": p["src"], "bps": b, "policy": pol, "coq": ms[:50], "python": full[:50]})
+                    if [g[0] for g in got] != [m[0] for m in ms][:len(got) if len(got) >= 400 else len(ms)]:
+                        fail("stops-differ-from-decision-function:model", "%s: breakpoints %s, commands %s: adapter stops differ from the Coq "
+                             "decision function" % (p["id"], b, pol),
+                             {"src": p["src"], "bps": b, "policy": pol, "impl_stops": got[:60], "model_stops": ms[:60]})
+                elif [g[0] for g in got] == [m[0] for m in ms][:len(got) if len(got) >= 400 else len(ms)]:
+                    st["script_impl_equals_coq_model"] += 1      # (a difference was already reported against the oracle = model)
+        extra.append((evs, [(b, pol) for b, pol, _, _ in items], cb))
+    # the simplest session of each class first (the first failure of a key becomes the replay)
+    failures.sort(key=lambda f: (len(f["replay"].get("policy", [])), len(f["replay"].get("bps", [])), len(f["replay"].get("src", ""))))
+    return failures, st, extra
+
+
+# ------------------------------------------------------------------------------------------------
+# family C: debugger-side EXPRESSION EVALUATION (breakpoint conditions, `evaluate` requests) on programs whose
+# locals / parameters SHADOW module globals and whose loaded (frozen) functions have globals colliding with the running
+# module's.  Evaluator::eval_statements copies frozen-module variables and locals into the live module and restores it.
+# Checked: transcript, result/error and the FINAL MODULE VALUES equal the completely uninstrumented run in every session;
+# an always-false condition gives zero stops; always-true / erroneous conditions stop like unconditional breakpoints;
+# a condition on locals stops exactly at the executions where it holds (values taken from the program's own markers);
+# `evaluate(name)` and variables() at a stop show the value the program emits there (the local, not the shadowed global).
+
+HAZ_LOCAL = "unassigned-local-takes-global-value"
+HAZ_GLOBAL = "unassigned-global-takes-local-value"
+HAZ_FROZEN = "unassigned-global-takes-frozen-module-value"
+EVAL_KEY = "debugger-eval-interference:"
+LIB = "lib.star"
+LIB_OFF = 1000       # lines of lib.star are shifted by this much in the decision function's event list
+
+
+class ShadowGen:
+    def __init__(self, seed):
+        self.rng = random.Random(seed)
+        self.seed = seed
+        self.mid = MARK0
+        self.markers = []      # dicts: file, line, id, names, in_def
+        self.stats = {}
+
+    def note(self, k):
+        self.stats[k] = self.stats.get(k, 0) + 1
+
+    def marker(self, lines, file, pad, names, in_def):
+        self.mid += 1
+        lines.append("%semit((%d, [%s]))" % (pad, self.mid, ", ".join(names)))
+        self.markers.append({"file": file, "line": len(lines), "id": self.mid, "names": list(names), "in_def": in_def})
+
+    def iexpr(self, names):
+        rng = self.rng
+        a = rng.choice(names) if names else str(rng.randint(1, 9))
+        r = rng.random()
+        if r < 0.3:
+            return "%s + %d" % (a, rng.randint(1, 9))
+        if r < 0.5 and len(names) > 1:
+            return "%s + %s" % (a, rng.choice(names))
+        if r < 0.65:
+            return "%s * 2" % a
+        if r < 0.8:
+            return "%s - %d" % (a, rng.randint(1, 5))
+        return a
+
+    def program(self):
+        rng = self.rng
+        hazard = rng.choice([None] * 17 + [HAZ_LOCAL, HAZ_GLOBAL, HAZ_FROZEN])
+        use_lib = hazard == HAZ_FROZEN or rng.random() < 0.4
+        globs = ["ga", "gb", "gc", "gd"][:rng.randint(2, 4)]
+        late = None            # the global that is assigned only at the end of the module (hazard programs)
+        lib_src, lib_funs, lib_globs = None, [], []
+        if use_lib:
+            L = []
+            lib_globs = sorted(rng.sample(globs, rng.randint(1, min(2, len(globs)))))     # collide with the running module's globals
+            self.note("lib_colliding_globals")
+            for g in lib_globs:
+                L.append("%s = %d" % (g, rng.choice([100, 200, 300])))
+            L.append("lk = 7")
+            params = ["a"] + ([rng.choice(globs)] if rng.random() < 0.5 else [])
+            params = list(dict.fromkeys(params))
+            L.append("def lf0(%s):" % ", ".join(params))
+            L.append("    t = a + %s + lk" % rng.choice(lib_globs))
+            self.marker(L, LIB, "    ", params + ["t"], True)
+            if rng.random() < 0.4:
+                L.append("    for li in range(2):")
+                L.append("        t = t + li")
+                self.marker(L, LIB, "        ", ["li", "t"], True)
+            L.append("    return t")
+            lib_funs.append(("lf0", len(params)))
+            if rng.random() < 0.5:
+                L.append("def lf1(b):")
+                L.append("    u = lf0(%s)" % ", ".join(["b + 1"] + ["2"] * (len(params) - 1)))
+                self.marker(L, LIB, "    ", ["b", "u"], True)
+                L.append("    return u + %s" % rng.choice(lib_globs))
+                lib_funs.append(("lf1", 1))
+            lib_src = "\n".join(L) + "\n"
+        M = []
+        if use_lib:
+            M.append("load(\"%s\", %s)" % (LIB, ", ".join('"%s"' % f for f, _ in lib_funs)))
+        ginit = {g: rng.choice([3, 10, -2, 41, 6]) for g in globs}
+        if hazard == HAZ_FROZEN:
+            late = rng.choice(lib_globs)
+        elif hazard == HAZ_GLOBAL:
+            late = rng.choice(globs)
+        for g in globs:
+            if g != late:
+                M.append("%s = %d" % (g, ginit[g]))
+        M.append("gl = [1, 2]")
+        early = [g for g in globs if g != late]
+        M.append("def rd():")
+        M.append("    return [%s]" % ", ".join(early + ["len(gl)"]))
+        if late:
+            M.append("def rd_late():")
+            M.append("    return %s" % late)
+        # functions of the running module
+        nf = rng.randint(1, 3)
+        funs = []        # (name, nparams)
+        shadowing_funs = []
+        for k in range(nf):
+            name = "f%d" % k
+            params = []
+            for j in range(rng.randint(1, 2)):
+                if rng.random() < 0.6 or (k == 0 and j == 0):
+                    cand = [g for g in globs if g not in params]
+                    params.append(rng.choice(cand))
+                    self.note("param_shadows_global")
+                else:
+                    params.append("p%d%d" % (k, j))
+            if hazard == HAZ_GLOBAL and k == 0 and late not in params:
+                params[0] = late
+            M.append("def %s(%s):" % (name, ", ".join(params)))
+            known = list(params)
+            for j in range(rng.randint(0, 2)):
+                cand = [g for g in globs if g not in known and not (hazard == HAZ_LOCAL and k == 0 and g == globs[-1])]
+                if cand and rng.random() < 0.6:
+                    x = rng.choice(cand)
+                    self.note("local_shadows_global")
+                else:
+                    x = "t%d%d" % (k, j)
+                M.append("    %s = %s" % (x, self.iexpr(known)))
+                known.append(x)
+            self.marker(M, "main", "    ", known, True)
+            if any(n in globs for n in known):
+                shadowing_funs.append(name)
+            callees = funs + lib_funs
+            if callees and rng.random() < 0.6:
+                cf, cn = rng.choice(callees)
+                M.append("    w%d = %s(%s)" % (k, cf, ", ".join(self.iexpr(known) for _ in range(cn))))
+                known.append("w%d" % k)
+                self.note("nested_call")
+            if rng.random() < 0.4:
+                M.append("    for i%d in range(2):" % k)
+                M.append("        q%d = i%d + %s" % (k, k, rng.choice(known)))
+                self.marker(M, "main", "        ", ["i%d" % k, "q%d" % k, known[0]], True)
+                self.note("loop_marker")
+            if rng.random() < 0.5:
+                M.append("    emit(rd())")
+            if rng.random() < 0.3 and "gl" not in known:
+                M.append("    gl.append(%s)" % known[0])
+            if hazard == HAZ_LOCAL and k == 0:
+                hz = globs[-1] if globs[-1] not in known else None
+                if hz is None:
+                    hazard = None
+                else:
+                    M.append("    if %s > 1000000:" % known[0])
+                    M.append("        %s = 0" % hz)
+                    M.append("    emit(%s)" % hz)
+                    self.haz_name = hz
+            M.append("    return %s" % self.iexpr(known))
+            funs.append((name, len(params)))
+        # module-level statements
+        body = []
+        for _ in range(rng.randint(2, 4)):
+            cf, cn = rng.choice(funs + (lib_funs if rng.random() < 0.5 else []))
+            args = ", ".join(str(rng.choice([1, 2, 5, 8, 13])) for _ in range(cn))
+            r = rng.random()
+            if r < 0.45:
+                body.append("emit(%s(%s))" % (cf, args))
+            elif r < 0.75 and early:
+                g = rng.choice(early)
+                body.append("%s = %s + %s(%s)" % (g, g, cf, args))
+                self.note("global_reassigned")
+            else:
+                body.append("emit(%s(%s))" % (cf, args))
+                body.append("emit(rd())")
+        if hazard in (HAZ_GLOBAL, HAZ_FROZEN):
+            # a function with the marker runs while `late` is still unassigned, then the program reads `late`
+            if hazard == HAZ_GLOBAL:
+                first = "emit(f0(%s))" % ", ".join(str(rng.choice([4, 9])) for _ in range(funs[0][1]))
+            else:
+                first = "emit(lf0(%s))" % ", ".join(str(rng.choice([4, 9])) for _ in range(lib_funs[0][1]))
+            body = [first, "emit(rd_late())"] + body
+            self.haz_name = late
+        for b in body:
+            M.append(b)
+        if rng.random() < 0.5 and early:
+            self.marker(M, "main", "", early[:2], False)
+        M.append("emit(rd())")
+        if late:
+            M.append("%s = %d" % (late, ginit.get(late, 5)))
+        if rng.random() < 0.5 and early:
+            M.append(rng.choice(early))
+        if hazard:
+            self.note("hazard:" + hazard)
+        return {"id": "c%d" % self.seed, "src": "\n".join(M) + "\n", "lib": lib_src, "markers": self.markers, "hazard": hazard,
+                "haz_name": getattr(self, "haz_name", None), "globs": globs, "stats": self.stats}
+
+
+def gen_shadow(seed):
+    return ShadowGen(seed).program()
+
+
+def cond_false(rng, names):
+    n = rng.choice(names)
+    return rng.choice(["False", "1 == 2", "not True", "%s != %s" % (n, n), "%s < -1000000" % n, "len([%s]) == 0" % n, "%s == None" % n,
+                       "type(%s) == \"string\"" % n, "%s + 1 == %s" % (n, n)])
+
+
+def cond_true(rng, names):
+    n = rng.choice(names)
+    return rng.choice(["True", "1 == 1", "%s == %s" % (n, n), "%s > -1000000" % n, "len([%s]) == 1" % n, "type(%s) == \"int\"" % n,
+                       "%s + 1 > %s" % (n, n)])
+
+
+def cond_local(rng, names, execs):
+    """-> (source text, python predicate over the list of emitted values) - ints only."""
+    i = rng.randrange(len(names))
+    n = names[i]
+    vals = [e[i] for e in execs if isinstance(e, list) and len(e) == len(names) and isinstance(e[i], int)]
+    v = rng.choice(vals) if vals else 0
+    r = rng.random()
+    if r < 0.4:
+        return "%s == %d" % (n, v), (lambda e, i=i, v=v: e[i] == v)
+    if r < 0.6:
+        return "%s > %d" % (n, v), (lambda e, i=i, v=v: e[i] > v)
+    if r < 0.8:
+        return "%s %% 2 == 0" % n, (lambda e, i=i: e[i] % 2 == 0)
+    j = rng.randrange(len(names))
+    return "%s + %s <= %d" % (n, names[j], 2 * v), (lambda e, i=i, j=j, v=v: e[i] + e[j] <= 2 * v)
+
+
+def shadow_case(p, extra):
+    c = {"src": p["src"], "finals": True, "max_stops": 500}
+    if p["lib"]:
+        c["mods"] = [{"name": LIB, "src": p["lib"]}]
+    c.update(extra)
+    return c
+
+
+def keyed_events(r):
+    """(line [+ LIB_OFF for lib.star], depth) of the non-continued events."""
+    return [((e[0] + LIB_OFF) if len(e) > 6 and e[6] == LIB else e[0], e[3] - 1) for e in r.get("events", []) if not e[2]]
+
+
+def mkey(m):
+    return m["line"] + (LIB_OFF if m["file"] == LIB else 0)
+
+
+def with_bps(p, case, bps, conds):
+    """bps: marker dicts; conds: {marker id: text}."""
+    main = [m for m in bps if m["file"] != LIB]
+    lib = [m for m in bps if m["file"] == LIB]
+    case["bps"] = [m["line"] for m in main]
+    case["conds"] = {str(m["line"]): conds[m["id"]] for m in main if m["id"] in conds}
+    if lib:
+        case["mods"] = [{"name": LIB, "src": p["lib"], "bps": [m["line"] for m in lib],
+                         "conds": {str(m["line"]): conds[m["id"]] for m in lib if m["id"] in conds}}]
+    return case
+
+
+def shadow_sessions(rng, p, execs):
+    """-> list of (config name, case, expectation) ; expectation: dict(pred=(key line, k) -> bool, policy, evals_at={key: names})."""
+    ms = p["markers"]
+    indef = [m for m in ms if m["in_def"]]
+    out = []
+
+    def session(name, bps, conds, truth, policy=("continue",), evals=None, check_values=False):
+        case = with_bps(p, shadow_case(p, {"policy": list(policy), "vars": True}), bps, conds)
+        if evals:
+            case["evals"] = evals
+        keys = {mkey(m): m for m in bps}
+
+        def pred(l, k):
+            m = keys.get(l)
+            return bool(m) and truth(m, k)
+        out.append((name, case, {"pred": pred, "policy": list(policy), "bps": [mkey(m) for m in bps], "conds": dict(conds),
+                                 "evals": evals or [], "check_values": check_values, "keys": keys}))
+
+    # always-false conditions on every marker: zero stops
+    session("cond-false", ms, {m["id"]: cond_false(rng, m["names"]) for m in ms}, lambda m, k: False)
+    # always-true conditions: like unconditional breakpoints; evaluate the marker's names at each stop
+    sub = [m for m in ms if rng.random() < 0.7] or ms[:1]
+    names = sorted({n for m in sub for n in m["names"]})
+    session("cond-true", sub, {m["id"]: cond_true(rng, m["names"]) for m in sub}, lambda m, k: True, evals=names + p["globs"], check_values=True)
+    # conditions on locals (markers inside functions: one start event per execution)
+    if indef:
+        sub = [m for m in indef if rng.random() < 0.7] or indef[:1]
+        conds, preds = {}, {}
+        for m in sub:
+            conds[m["id"]], preds[m["id"]] = cond_local(rng, m["names"], execs.get(m["id"], []))
+
+        def truth(m, k, preds=preds):
+            ex = execs.get(m["id"], [])
+            try:
+                return k < len(ex) and bool(preds[m["id"]](ex[k]))
+            except Exception:  # noqa: BLE001
+                return True
+        session("cond-local", sub, conds, truth)
+    # a condition that cannot be evaluated stops (documented: "If failed to evaluate the condition, stop")
+    if rng.random() < 0.5:
+        m = rng.choice(ms)
+        session("cond-error", [m], {m["id"]: rng.choice(["no_such_name > 1", "1 // 0 == 0", "[][0]"])}, lambda m, k: True)
+    # unconditional breakpoints, evaluate requests at the stops, a mixed command script
+    sub = [m for m in ms if rng.random() < 0.6] or ms[-1:]
+    names = sorted({n for m in sub for n in m["names"]})
+    session("evaluate-script", sub, {}, lambda m, k: True, policy=[rng.choice(CMDS) for _ in range(rng.randint(1, 5))] + ["continue"],
+            evals=names + p["globs"] + ["len(gl)", "1 + 1"])
+    # mixed: some conditional-false, the others unconditional
+    if len(ms) >= 2:
+        off = {m["id"] for m in ms if rng.random() < 0.5}
+        session("cond-mixed", ms, {i: cond_false(rng, [m for m in ms if m["id"] == i][0]["names"]) for i in off},
+                lambda m, k, off=off: m["id"] not in off, evals=p["globs"])
+    return out
+
+
+def check_shadow(ctx, progs):
+    failures = []
+    st = {"shadow_programs": len(progs), "shadow_sessions": 0, "shadow_stops": 0, "condition_evaluations": 0, "evaluate_compared": 0,
+          "shadow_hazard_programs": 0, "shadow_configs": {}, "finals_compared": 0, "shadow_coq_cases": 0, "shadow_vars_compared": 0}
+
+    def fail(key, what, replay):
+        failures.append({"key": key, "what": what, "replay": dict(replay, family="shadow")})
+
+    base = run_dap(ctx, [shadow_case(p, {"adapter": False, "record": False}) for p in progs], "cbase")[0]
+    rec = run_dap(ctx, [shadow_case(p, {"adapter": False}) for p in progs], "crec")[0]
+    jobs, meta = [], []
+    for p, b0, r0 in zip(progs, base, rec):
+        rep0 = {"src": p["src"], "lib": p["lib"], "program": p["id"], "hazard": p["hazard"]}
+        if b0 is None or "panic" in b0 or b0.get("hang") or "parse_error" in b0 or "lib_error" in b0 or "out" not in b0:
+            fail("impl-crash:uninstrumented", "%s: the uninstrumented run failed: %s" % (p["id"], str(b0)[:300]), dict(rep0, impl=b0))
+            continue
+        if r0 is None or "panic" in r0 or r0.get("hang") or "out" not in r0:
+            fail("impl-crash:record-only", "%s: run with only the recording hook: %s" % (p["id"], str(r0)[:200]), dict(rep0, impl=r0))
+            continue
+        if p["hazard"]:
+            st["shadow_hazard_programs"] += 1
+        execs = {}
+        for item in (parse_enc(x) for x in b0["tr"]):
+            if isinstance(item, tuple) and len(item) == 2 and isinstance(item[0], int) and item[0] > MARK0:
+                execs.setdefault(item[0], []).append(item[1])
+        b = (b0["tr"], norm_out(b0["out"]), b0.get("finals"))
+        g = (r0["tr"], norm_out(r0["out"]), r0.get("finals"))
+        if g != b:
+            fail("outcome-differs:stmt-hook", "%s: with a recording before_stmt hook the program behaves differently" % p["id"],
+                 dict(rep0, instrumented=g, uninstrumented=b))
+        sess = shadow_sessions(random.Random(("sessions", p["id"]).__repr__()), p, execs)     # a function of the program only (replayable)
+        for name, case, exp in sess:
+            jobs.append(case)
+            meta.append((p, b, r0, execs, name, case, exp))
+    res = run_dap(ctx, jobs, "ccfg")[0]
+    coq = {}
+    for (p, b, r0, execs, name, case, exp), r in zip(meta, res):
+        st["shadow_sessions"] += 1
+        st["shadow_configs"][name] = st["shadow_configs"].get(name, 0) + 1
+        rep = {"src": p["src"], "lib": p["lib"], "program": p["id"], "hazard": p["hazard"], "config": name, "policy": exp["policy"],
+               "breakpoints": exp["bps"], "conditions": {str(k): v for k, v in exp["conds"].items()}, "evals": exp["evals"],
+               "case": case}
+        if r is None or "panic" in r or r.get("lost") or "out" not in r:
+            if r is not None and r.get("hang"):
+                fail("hang:dap-" + name, "%s: debugger session %s made no progress (deadlock)" % (p["id"], name), rep)
+            else:
+                fail("impl-crash:dap-" + name, "%s: debugger session %s crashed: %s" % (p["id"], name, str(r)[:300]), dict(rep, impl=r))
+            continue
+        evs = keyed_events(r0)
+        nconds = sum(1 for l, _ in evs if l in exp["keys"] and exp["keys"][l]["id"] in exp["conds"])
+        st["condition_evaluations"] += nconds
+        # ---- non-interference: transcript, result / error, final module values
+        got = (r["tr"], norm_out(r["out"]), r.get("finals"))
+        st["finals_compared"] += 1
+        if got != b:
+            part = "transcript" if got[0] != b[0] else ("outcome" if got[1] != b[1] else "final module values")
+            key = EVAL_KEY + name
+            if p["hazard"] and b[1][0] == "err" and "referenced before assignment" in (b[1][2] or "") and ("`%s`" % p["haz_name"]) in (b[1][2] or "") \
+                    and got[0][:len(b[0])] == b[0] and (got[1] != b[1]):
+                key = EVAL_KEY + p["hazard"]
+            diff = ""
+            if part == "final module values":
+                diff = "; ".join("%s: %s vs %s" % (x[0], x[2], y[2]) for x, y in zip(got[2] or [], b[2] or []) if x != y)[:300]
+            fail(key, "%s (%s; breakpoints %s; conditions %s; evaluate %s): the debugger-side expression evaluation changes the program: %s "
+                 "differs from the uninstrumented run: %s %s | uninstrumented %s"
+                 % (p["id"], name, exp["bps"], list(exp["conds"].values()), exp["evals"][:4], part, diff, str(got[:2])[:300], str(b[:2])[:300]),
+                 dict(rep, instrumented=got, uninstrumented=b))
+            continue
+        if r.get("events") != r0.get("events"):
+            fail("trace-differs-across-configs:dap-" + name, "%s: the before_stmt event sequence under %s differs from the one without the adapter"
+                 % (p["id"], name), rep)
+        if not all(r.get("verified", [])):
+            fail("breakpoint-unverified", "%s: a breakpoint on a marker line was not resolved: %s" % (p["id"], r.get("verified")), rep)
+        # ---- stops = decision function with the conditions' truth values
+        stops = [s_ for s_ in r.get("stops", []) if "i" in s_]
+        st["shadow_stops"] += len(stops)
+        got_stops = [((s_.get("line") or 0) + (LIB_OFF if s_.get("file") == LIB else 0)) for s_ in stops]
+        want = py_stops(exp["pred"], exp["policy"], evs)
+        if r.get("capped"):
+            want = want[:len(got_stops)]
+        if got_stops != [w[0] for w in want]:
+            k = 0
+            while k < min(len(got_stops), len(want)) and got_stops[k] == want[k][0]:
+                k += 1
+            fail("conditional-breakpoint:stops-differ/" + name,
+                 "%s (%s): stops differ from the decision function with the conditions' truth values: first %d equal, then impl %s vs expected %s "
+                 "(breakpoint lines %s, conditions %s, commands %s; lines of %s are shifted by %d)"
+                 % (p["id"], name, k, got_stops[k:k + 3], [w[0] for w in want][k:k + 3], exp["bps"], exp["conds"], exp["policy"], LIB, LIB_OFF),
+                 dict(rep, impl_stops=got_stops[:60], spec_stops=want[:60]))
+            continue
+        # constant conditions: the same session in the Coq decision function with the effective breakpoint set
+        if name in ("cond-false", "cond-true", "cond-error", "evaluate-script", "cond-mixed") and len(evs) <= 400:
+            eff = sorted(l for l, m in exp["keys"].items() if exp["pred"](l, 0))
+            coq.setdefault(p["id"], (p, evs, []))[2].append((eff, exp["policy"], want))
+        # ---- values at the stops: evaluate(name) and variables() show what the program emits there
+        if exp["check_values"] and exp["policy"] == ["continue"]:
+            seen = {}
+            for s_, l in zip(stops, got_stops):
+                m = exp["keys"].get(l)
+                if not m or not m["in_def"]:
+                    continue
+                k = seen.get(l, 0)
+                seen[l] = k + 1
+                ex = execs.get(m["id"], [])
+                if k >= len(ex) or not isinstance(ex[k], list):
+                    continue
+                vals = dict(zip(m["names"], ex[k]))
+                for e_src, e_res in zip(exp["evals"], s_.get("evals", [])):
+                    if e_src in vals:
+                        w = dap_summary(vals[e_src])
+                        st["evaluate_compared"] += 1
+                        if w is not None and (e_res.get("ok"), e_res.get("type")) != w:
+                            fail("evaluate:wrong-value", "%s: at the stop on line %s evaluate(%s) gives %s but the program has %s there"
+                                 % (p["id"], l, e_src, e_res, w), dict(rep, stop=s_, expected=w))
+                shown = {v[0]: v for v in s_.get("vars", [])}
+                for n_, v_ in vals.items():
+                    w = dap_summary(v_)
+                    if n_ in shown and w is not None:
+                        st["shadow_vars_compared"] += 1
+                        if (shown[n_][1], shown[n_][2]) != w:
+                            fail("vars:wrong-value", "%s: at the stop on line %s variable %s is shown as %s but the program has %s there"
+                                 % (p["id"], l, n_, shown[n_][1:3], w), dict(rep, stop=s_, expected=w))
+                    elif n_ not in shown:
+                        fail("vars:missing", "%s: at the stop on line %s the local %s is not among the shown variables %s"
+                             % (p["id"], l, n_, sorted(shown)), dict(rep, stop=s_))
+    extra = []
+    for pid, (p, evs, items) in coq.items():
+        def cb(v, mlog, p=p, evs=evs, items=items):
+            if v is None or len(v) != len(items):
+                fail("model-run-failed", "the Coq decision function could not be evaluated for %s: %s" % (p["id"], mlog[-300:]), {"src": p["src"]})
+                return
+            for (eff, pol, want), mv in zip(items, v):
+                st["shadow_coq_cases"] += 1
+                ms_ = [tuple(e) for e in mv]
+                if ms_ != py_stops(eff, pol, evs):
+                    fail("model-vs-spec:decision-function", "%s: Coq run_dbg and the Python oracle disagree on (%s, %s)" % (p["id"], eff, pol),
+                         {"src": p["src"], "bps": eff, "policy": pol, "coq": ms_[:50]})
+        extra.append((evs, [(eff, pol) for eff, pol, _ in items], cb))
+    # the smallest program of each class first (the first failure of a key becomes the replay)
+    failures.sort(key=lambda f: len(f["replay"].get("src", "")) + len(f["replay"].get("lib") or ""))
+    return failures, st, extra
+
+
+# ------------------------------------------------------------------------------------------------
 
 def gen_programs(ctx, n_mark, n_rich):
     rng = ctx.rng
@@ -1003,9 +1696,33 @@ def gen_programs(ctx, n_mark, n_rich):
     return out, agg
 
 
+def merge_stats(agg, stats):
+    for k, v in stats.items():
+        agg[k] = agg.get(k, 0) + v
+
+
+def run_families(ctx, n_mark, n_rich, n_script_gen, script_budget, depths, n_shadow):
+    """All three families; the Coq decision function of every family is evaluated in one coqc batch."""
+    programs, agg = gen_programs(ctx, n_mark, n_rich)
+    sprogs = script_programs(ctx, n_script_gen)
+    f_s, st_s, extra_s = check_scripts(ctx, sprogs, script_budget, depths[0], depths[1])
+    ctx.log("script family: %d programs, %d mixed-command sessions, %d stops, %d sessions with a breakpoint hit while Over/Out is pending, %d failures"
+            % (st_s["script_programs"], st_s["script_sessions"], st_s["script_stops"],
+               st_s["script_sessions_with_breakpoint_hit_during_pending_over_or_out"], len(f_s)))
+    cprogs = [gen_shadow(ctx.rng.getrandbits(40)) for _ in range(n_shadow)]
+    for p in cprogs:
+        merge_stats(agg, {"shadow:" + k: v for k, v in p["stats"].items()})
+    f_c, st_c, extra_c = check_shadow(ctx, cprogs)
+    ctx.log("shadowing family: %d programs (%d hazard), %d sessions, %d condition evaluations, %d stops, %d evaluate results compared, %d failures"
+            % (st_c["shadow_programs"], st_c["shadow_hazard_programs"], st_c["shadow_sessions"], st_c["condition_evaluations"],
+               st_c["shadow_stops"], st_c["evaluate_compared"], len(f_c)))
+    failures, st = check_programs(ctx, programs, extra_dbg=extra_s + extra_c)
+    return programs, sprogs, cprogs, agg, failures + f_s + f_c, st, st_s, st_c
+
+
 def correspond(ctx):
-    programs, agg = gen_programs(ctx, ctx.n(30, 1200), ctx.n(24, 900))
-    failures, st = check_programs(ctx, programs)
+    programs, sprogs, cprogs, agg, failures, st, st_s, st_c = run_families(
+        ctx, ctx.n(30, 1200), ctx.n(24, 900), ctx.n(6, 60), ctx.n(1500, 12000), ctx.n((3, 4), (4, 5)), ctx.n(160, 4000))
     ctx.log("programs=%d eval_runs=%d dap_runs=%d stops=%d events=%d decision_cases=%d model_traces=%d vars=%d failing=%d failures=%d"
             % (st["programs"], st["eval_runs"], st["dap_runs"], st["stops"], st["events"], st["decision_cases"], st["model_traces"],
                st["vars_compared"], st["failing_programs"], len(failures)))
@@ -1013,18 +1730,23 @@ def correspond(ctx):
         ctx.log("NOTE DapAdapter::top_frame() named the frame \"None\" at %d stops (CheapCallStack::top_frame reads the last slot of the "
                 "stack array instead of the top entry); stack_trace() names are right" % st["top_frame_name_none"])
     cov = {
-        "evaluations": st["eval_runs"] + st["dap_runs"] + len(programs),
-        "distinct_nontrivial": len({p["src"] for p in programs if len(p["src"].splitlines()) >= 8 and p["markers"]}),
+        "evaluations": st["eval_runs"] + st["dap_runs"] + len(programs) + st_s["script_sessions"] + st_s["script_programs"]
+                       + st_c["shadow_sessions"] + 2 * st_c["shadow_programs"],
+        "distinct_nontrivial": len({p["src"] for p in programs if len(p["src"].splitlines()) >= 8 and p["markers"]})
+                               + len({p["src"] for p in cprogs if p["markers"]}),
         "rule": "MarkStar programs (model subset: ints, if/for/break/continue, calls with depth, early return, planted division by zero) and "
                 "tools/gen/progs.py programs with self-counting markers, each under 14 evaluator configurations (uninstrumented, 12 profile "
-                "modes, statement hook) and 8 debugger configurations; non-trivial = at least 8 source lines and a marker; distinct by source",
-        "programs": len(programs),
+                "modes, statement hook) and 10 debugger configurations; nested-call programs under mixed command scripts (all command "
+                "sequences up to a depth x breakpoint subsets, oracle-pruned, + random long scripts); shadowing programs (locals/parameters "
+                "named like module globals, loaded frozen functions with colliding globals) under conditional breakpoints and evaluate "
+                "requests; non-trivial = at least 8 source lines and a marker (shadowing programs: a marker); distinct by source",
+        "programs": len(programs) + len(sprogs) + len(cprogs),
         "traces_validated_against_impl": st["model_traces"],
-        "decision_function_cases_in_coq": st["decision_cases"],
-        "debugger_sessions": st["dap_runs"],
-        "stops_observed": st["stops"],
+        "decision_function_cases_in_coq": st["decision_cases"] + st_s["script_coq_cases"] + st_c["shadow_coq_cases"],
+        "debugger_sessions": st["dap_runs"] + st_s["script_sessions"] + st_c["shadow_sessions"],
+        "stops_observed": st["stops"] + st_s["script_stops"] + st_c["shadow_stops"],
         "statement_events_observed": st["events"],
-        "variables_compared": st["vars_compared"],
+        "variables_compared": st["vars_compared"] + st_c["shadow_vars_compared"],
         "variables_not_shown": st["vars_not_shown"],
         "evaluate_calls": st["evals"],
         "marker_executions_counted_by_programs": st["marker_executions"],
@@ -1032,9 +1754,11 @@ def correspond(ctx):
         "programs_with_module_level_double_events": st["twice_programs"],
         "top_frame_named_None": st["top_frame_name_none"],
         "debugger_configurations": st["configs"],
+        "mixed_command_scripts": st_s,
+        "expression_evaluation_under_shadowing": st_c,
         "input_distribution": agg,
         "exhaustive": False,
-        "samples": [programs[0]["src"], programs[-1]["src"]],
+        "samples": [programs[0]["src"], programs[-1]["src"], sprogs[0]["src"], cprogs[0]["src"]],
     }
     return {"coverage": cov, "failures": failures}
 
@@ -1071,14 +1795,22 @@ def minimise(ctx, prog, key):
     return "\n".join(lines) + "\n"
 
 
+def run_extra(ctx, extra):
+    """Evaluate the decision-function jobs of the script / shadowing families alone (replays)."""
+    if not extra:
+        return
+    _, dres, mlog = run_model(ctx, [], [(e, c) for e, c, _ in extra])
+    for (_, _, cb), v in zip(extra, dres):
+        cb(v, mlog)
+
+
 def search(ctx, broken):
     old = ctx.tier
     ctx.tier = "thorough"
     try:
-        programs, _ = gen_programs(ctx, 400, 300)
+        programs, sprogs, cprogs, _, failures, st, st_s, st_c = run_families(ctx, 400, 300, 30, 6000, (4, 5), 1500)
     finally:
         ctx.tier = old
-    failures, st = check_programs(ctx, programs)
     out = []
     seen = set()
     by_src = {p["src"]: p for p in programs}
@@ -1088,17 +1820,60 @@ def search(ctx, broken):
             continue
         seen.add(f["key"])
         p = by_src.get((f.get("replay") or {}).get("src"))
-        if p is not None and len(seen) <= 3:
+        if p is not None and len(seen) <= 3 and not (f.get("replay") or {}).get("family"):
             try:
                 f = dict(f, replay=dict(f["replay"], minimised_src=minimise(ctx, p, f["key"])))
             except Exception:  # noqa: BLE001
                 pass
         out.append(f)
-    return {"failures": out, "coverage": {"evaluations": st["eval_runs"] + st["dap_runs"]}}
+    return {"failures": out, "coverage": {"evaluations": st["eval_runs"] + st["dap_runs"] + st_s["script_sessions"] + st_c["shadow_sessions"]}}
+
+
+def replay_shadow(ctx, r):
+    """Re-run a shadowing-family finding: regenerate the program from its seed (sessions are a function of the program);
+    when the generator has changed since, re-run the recorded harness case against the uninstrumented run."""
+    pid = r.get("program", "")
+    p = None
+    if pid.startswith("c") and pid[1:].isdigit():
+        q = gen_shadow(int(pid[1:]))
+        if q["src"] == r.get("src") and q["lib"] == r.get("lib"):
+            p = q
+    if p is not None:
+        failures, st, extra = check_shadow(ctx, [p])
+        run_extra(ctx, extra)
+        return failures, st["shadow_sessions"] + 2
+    case = r.get("case")
+    if not case:
+        return [], 0
+    base_case = {k: v for k, v in case.items() if k not in ("bps", "conds", "evals", "policy")}
+    if "mods" in base_case:
+        base_case["mods"] = [{"name": m["name"], "src": m["src"]} for m in base_case["mods"]]
+    base_case.update({"adapter": False, "record": False})
+    res = run_dap(ctx, [base_case, case], "creplay")[0]
+    b0, r1 = res
+    failures = []
+    if b0 and r1 and "out" in b0 and "out" in r1:
+        b = (b0["tr"], norm_out(b0["out"]), b0.get("finals"))
+        g = (r1["tr"], norm_out(r1["out"]), r1.get("finals"))
+        if g != b:
+            failures.append({"key": EVAL_KEY + str(r.get("config")), "what": "the recorded debugger session changes the program: %s vs uninstrumented %s"
+                             % (str(g)[:300], str(b)[:300]), "replay": dict(r, instrumented=g, uninstrumented=b)})
+    else:
+        failures.append({"key": "impl-crash:dap-" + str(r.get("config")), "what": "replayed session crashed: %s / %s" % (str(b0)[:200], str(r1)[:200]),
+                         "replay": r})
+    return failures, 2
 
 
 def replay(ctx, rep):
     r = rep.get("replay", {})
+    if r.get("family") == "script" and r.get("src"):
+        p = {"id": r.get("program", "replay"), "src": r["src"], "fixed": True}
+        failures, st, extra = check_scripts(ctx, [p], 0, 0, 0, sessions_of={p["id"]: [(r.get("bps", []), r.get("policy", ["continue"]))]})
+        run_extra(ctx, extra)
+        return {"coverage": {"evaluations": st["script_sessions"] + 1, "distinct_nontrivial": 1, "samples": [r["src"]]}, "failures": failures}
+    if r.get("family") == "shadow" and r.get("src"):
+        failures, n = replay_shadow(ctx, r)
+        return {"coverage": {"evaluations": n, "distinct_nontrivial": 1, "samples": [r["src"]]}, "failures": failures}
     src = r.get("minimised_src") or r.get("src")
     if not src:
         return {"coverage": {}, "failures": []}
@@ -1123,15 +1898,24 @@ META = {
                   "trace_depth); the adapter's decision function stops exactly at the start events of breakpoint lines - once per execution - "
                   "when continuing, at every event after the first hit under Into, at the next event of depth <= saved under Over and < saved "
                   "under Out. The real code is tied on every run: generated programs x {uninstrumented, 12 profile modes, statement hook, real "
-                  "debug adapter attached / breakpoints on marker lines / Into / Over / Out / random command scripts / evaluate at each stop}: "
+                  "debug adapter attached / breakpoints on marker lines / Into / Over / Out / random command scripts / evaluate at each stop / "
+                  "constant conditions}; mixed command scripts (every sequence over Continue/Into/Over/Out up to depth 3-4 in the quick and 4-5 in "
+                  "the thorough tier x breakpoint subsets on nested-call programs, + random long scripts; Coq: stop_clears_step, "
+                  "stop_forgets_pending_step, continue_runs_to_breakpoints); conditional breakpoints and evaluate requests on programs whose "
+                  "locals/parameters shadow module globals and whose frozen loaded functions have colliding globals (final module values "
+                  "compared too): "
                   "identical transcripts, results and errors; identical before_stmt event sequences, equal to the model's trace for MarkStar "
                   "programs; adapter stops = the Coq decision function on the real event trace; stops per breakpoint = executions counted by the "
                   "program; shown variables = emitted values; no deadlock (supervised sessions).",
     "level_note": "Partial because the bytecode compiler, BcStatementLocations, the interpreter loop, profilers' internals and the adapter's "
                   "thread/channel glue are tied by differential testing only; timing/allocation effects of profilers, hooks that return errors, "
-                  "conditional breakpoints, multi-module inlining and re-entrancy of evaluate() beyond pure expressions are not modelled. Trusted: "
+                  "the truth value of breakpoint conditions (the Coq decision function takes the effective breakpoint set; conditions that depend "
+                  "on locals are checked against the Python oracle with the values the program emits), multi-module inlining and evaluate() of "
+                  "impure expressions are not modelled. Trusted: "
                   "Coq kernel, cases.v evaluation, harness bins eval/dap, generators. Known finding: module-level statements fire before_stmt "
-                  "twice (PossibleGc instruction carries the statement span), so a breakpoint there stops twice per execution.",
+                  "twice (PossibleGc instruction carries the statement span), so a breakpoint there stops twice per execution. Known findings: "
+                  "a debugger-side evaluation inside a def gives an unassigned local the value of a same-named module global, and leaves a local's / "
+                  "frozen module's value in a same-named module global that is not assigned yet (Evaluator::eval_statements cannot unassign).",
     "technique": "Coq parametricity proof of observer non-interference + big-step trace characterisation + adapter decision-function lemmas; "
                  "differential correspondence of event traces, stops and variables with the real evaluator/debug adapter under every instrumentation mode",
     "design_ref": "DESIGN.md section 4 C18, section 6",
